@@ -18,8 +18,10 @@ import (
 	"syscall"
 	"time"
 
+	blocks "github.com/ipfs/go-block-format"
 	"github.com/ipfs/go-cid"
 	carv2 "github.com/ipld/go-car/v2"
+	carbs "github.com/ipld/go-car/v2/blockstore"
 	mh "github.com/multiformats/go-multihash"
 )
 
@@ -730,8 +732,8 @@ func extractStatus(r cliResult) Val {
 // input: (fs cwd outdir pathflag roots opts buildroots)
 //   roots      = what the walk is presented with (the model reads only this): ((traw) | (tn <utree>)) ...
 //   buildroots = the same forest with build hints: ((traw n<present>) | (tn <utree with hints>)) ...
-//   opts       = (n<stdin> n<carv2>)
-// observation: (status realroot fs-after)
+//   opts       = (n<stdin> n<carv2> n<no output argument: run in the directory outdir names (logical path)>)
+// observation: (status realroot fs-after stdout)
 func extractInput(fs, cwd Val, outdir, pathflag []byte, buildroots VL, opts Val) Val {
 	roots := VL{}
 	for _, r := range buildroots {
@@ -810,7 +812,14 @@ func runExtractCase(c *Ctx, in Val) Val {
 	if pf := vb(vnth(in, 3)); len(pf) > 0 {
 		args = append(args, "--path", string(pf))
 	}
-	args = append(args, outArg)
+	noArg := vn(vnth(opts, 2)) != 0
+	if noArg {
+		// no output directory argument: the tool extracts into os.Getwd(), which is the logical
+		// ($PWD) spelling of the directory the process was started in
+		cwdReal = outArg
+	} else {
+		args = append(args, outArg)
+	}
 	var stdin []byte
 	if useStdin {
 		stdin = payload
@@ -819,7 +828,10 @@ func runExtractCase(c *Ctx, in Val) Val {
 	if os.Getenv("VERIF_CLI_DEBUG") != "" {
 		fmt.Fprintf(os.Stderr, "car %q (cwd %s) exit=%d\nstderr: %s\n", args, cwdReal, res.exit, res.stderr)
 	}
-	return VL{extractStatus(res), rr, sb.snapshot()}
+	if outArg == "-" {
+		rr = VL{VT("none")} // standard output, not a directory
+	}
+	return VL{extractStatus(res), rr, sb.snapshot(), VB(res.stdout)}
 }
 
 func init() {
@@ -831,7 +843,8 @@ func init() {
 // input: (fs cwd outdir pathflag roots opts src srcpath dstpath)
 //   fs      = sandbox before extraction: source tree, empty output directory
 //   roots   = ((tn <utree>)): what `car create` builds from the source, as the walk sees it
-//   opts    = (n<version 1|2> n<no-wrap> n<mode: 0 -f file, 1 stdin from a file, 2 stdin from a pipe>)
+//   opts    = (n<version 1|2> n<no-wrap> n<mode: 0 -f file, 1 stdin from a file, 2 stdin from a pipe>
+//              n<no output argument: extract runs in the directory outdir names>)
 //   src     = (b<source argument of car create> | (b<source argument> ...)  ((b<digest> n<seed> n<len> n<zero tail> n<chunk repeats> b<explicit> n<zero head>) ...))
 //             recipes for contents longer than 64 bytes (the fs value carries only their digest)
 // observation: (status realroot fs-after (n<roots> n<printed = header root> n<root != proxy> n<root block present>))
@@ -960,17 +973,27 @@ func runCreateExtractCase(c *Ctx, in Val) Val {
 		}
 	}
 	var xr cliResult
+	xcwd := cwdReal
+	xargs := []string{"extract"}
+	if mode == 0 {
+		xargs = append(xargs, "-f", carPath)
+	}
+	if vn(vnth(opts, 3)) != 0 {
+		xcwd = outArg // no output argument: extract into the (logical) working directory
+	} else {
+		xargs = append(xargs, outArg)
+	}
 	switch mode {
 	case 0:
-		xr = runCar(c, cwdReal, nil, "extract", "-f", carPath, outArg)
+		xr = runCar(c, xcwd, nil, xargs...)
 	case 1:
-		xr = runCarStdinFile(c, cwdReal, carPath, "extract", outArg)
+		xr = runCarStdinFile(c, xcwd, carPath, xargs...)
 	default:
 		data, err := os.ReadFile(carPath)
 		if err != nil {
 			panic(err)
 		}
-		xr = runCar(c, cwdReal, data, "extract", outArg)
+		xr = runCar(c, xcwd, data, xargs...)
 	}
 	if debug {
 		fmt.Fprintf(os.Stderr, "car extract (mode %d) exit=%d stderr: %s\n", mode, xr.exit, xr.stderr)
@@ -1007,4 +1030,213 @@ func runCarStdinFile(c *Ctx, dir, stdinPath string, args ...string) cliResult {
 
 func init() {
 	registerReplay("createextract", func(c *Ctx, in Val) Val { return runCreateExtractCase(c, in) })
+}
+
+// ---------------------------------------------------------------- kind "createextractlarge" (C18)
+//
+// input: (utree opts), opts = (n<version> n<no-wrap> n<mode> n<synthetic> b<path>); the tree is written
+// below /SB/src/t, packed, extracted into /SB/out and compared here (names, kinds, contents, link
+// targets).  synthetic = 1: no source files and no `car create` -- creating tens of thousands of
+// inodes costs more than the quick tier has -- the DAG (raw-leaf files, basic directories) is
+// assembled here and written through blockstore.OpenReadWrite + Finalize, the store session `car create`
+// itself uses; `car extract --path <path>` then extracts one sub-directory, which is compared.
+func writeUtree(p string, v Val) {
+	var err error
+	switch vt(vnth(v, 0)) {
+	case "f":
+		err = os.WriteFile(p, vb(vnth(v, 1)), 0o644)
+	case "l":
+		err = os.Symlink(string(vb(vnth(v, 1))), p)
+	case "d":
+		err = os.Mkdir(p, 0o755)
+		for _, e := range vl(vnth(v, 1)) {
+			writeUtree(p+"/"+string(vb(vnth(e, 0))), vnth(e, 1))
+		}
+	}
+	if err != nil {
+		panic(err)
+	}
+}
+
+// sameTree: the object at p is what the utree value says (and nothing else is there)
+func sameTree(p string, v Val) bool {
+	fi, err := os.Lstat(p)
+	if err != nil {
+		return false
+	}
+	switch vt(vnth(v, 0)) {
+	case "f":
+		b, err := os.ReadFile(p)
+		return err == nil && fi.Mode().IsRegular() && bytes.Equal(b, vb(vnth(v, 1)))
+	case "l":
+		t, err := os.Readlink(p)
+		return err == nil && t == string(vb(vnth(v, 1)))
+	case "d":
+		if !fi.IsDir() {
+			return false
+		}
+		des, err := os.ReadDir(p)
+		ents := vl(vnth(v, 1))
+		if err != nil || len(des) != len(ents) {
+			return false
+		}
+		for _, e := range ents {
+			if !sameTree(p+"/"+string(vb(vnth(e, 0))), vnth(e, 1)) {
+				return false
+			}
+		}
+		return true
+	}
+	return false
+}
+
+// hintedTree turns a plain utree value into a build value: raw-leaf files, basic directories
+func hintedTree(v Val) Val {
+	switch vt(vnth(v, 0)) {
+	case "f":
+		return VL{VT("f"), vnth(v, 1), VN(0), VN(1)}
+	case "d":
+		ents := VL{}
+		for _, e := range vl(vnth(v, 1)) {
+			ents = append(ents, VL{vnth(e, 0), hintedTree(vnth(e, 1)), VN(1)})
+		}
+		return VL{VT("d"), ents, VN(0)}
+	}
+	return v
+}
+
+func runCreateExtractLargeCase(c *Ctx, in Val) Val {
+	sb := newSandbox(c)
+	defer sb.remove()
+	syscall.Umask(0o022)
+	tree := vnth(in, 0)
+	opts := vnth(in, 1)
+	version, nowrap, mode := vn(vnth(opts, 0)), vn(vnth(opts, 1)) != 0, vn(vnth(opts, 2))
+	if err := os.MkdirAll(sb.real+"/src", 0o755); err != nil {
+		panic(err)
+	}
+	if err := os.Mkdir(sb.real+"/out", 0o755); err != nil {
+		panic(err)
+	}
+	t0 := time.Now()
+	lap := func(what string) {
+		if os.Getenv("VERIF_CLI_DEBUG") != "" {
+			fmt.Fprintf(os.Stderr, "large: %s %.2fs\n", what, time.Since(t0).Seconds())
+		}
+		t0 = time.Now()
+	}
+	defer lap("compare")
+	synthetic := vn(vnth(opts, 3)) != 0
+	pathFlag := string(vb(vnth(opts, 4)))
+	carDir, err := os.MkdirTemp(c.Work, "car")
+	if err != nil {
+		panic(err)
+	}
+	defer os.RemoveAll(carDir)
+	carPath := carDir + "/out.car"
+	if synthetic {
+		st := &dagStore{sb: sb}
+		rootCid := st.build(hintedTree(tree))
+		var o []carv2.Option
+		if version == 1 {
+			o = append(o, carbs.WriteAsCarV1(true))
+		}
+		bs, err := carbs.OpenReadWrite(carPath, []cid.Cid{rootCid}, o...)
+		if err != nil {
+			panic(err)
+		}
+		for _, b := range st.blks {
+			blk, err := blocks.NewBlockWithCid(b.Data, b.Cid)
+			if err != nil {
+				panic(err)
+			}
+			if err := bs.Put(context.Background(), blk); err != nil {
+				panic(err)
+			}
+		}
+		if err := bs.Finalize(); err != nil {
+			panic(err)
+		}
+		lap("synthetic archive")
+	} else {
+		writeUtree(sb.real+"/src/t", tree)
+		lap("write")
+		args := []string{"create", "--version", strconv.FormatUint(version, 10)}
+		if nowrap {
+			args = append(args, "--no-wrap")
+		}
+		args = append(args, "-f", carPath, "src/t")
+		if res := runCar(c, sb.real, nil, args...); res.exit != 0 {
+			return VL{VL{VT("create-failed")}, VL{VN(0), VN(0), VN(0), VN(0)}, VN(0), VN(0)}
+		}
+	}
+	rootInfo := VL{VN(0), VN(0), VN(0), VN(0)}
+	if f, err := os.Open(carPath); err == nil {
+		if br, err := carv2NewBlockReader(f); err == nil {
+			rr := runCar(c, sb.real, nil, "root", carPath)
+			printed := strings.Fields(string(rr.stdout))
+			rootInfo[0] = VN(len(br.Roots))
+			if len(br.Roots) == 1 {
+				rootInfo[1] = vbool(rr.exit == 0 && len(printed) == 1 && printed[0] == br.Roots[0].String())
+				rootInfo[2] = vbool(br.Roots[0].String() != proxyRootStr)
+				for {
+					blk, err := br.Next()
+					if err != nil {
+						break
+					}
+					if blk.Cid().Equals(br.Roots[0]) {
+						rootInfo[3] = VN(1)
+					}
+				}
+			}
+		}
+		f.Close()
+	}
+	var xr cliResult
+	xargs := []string{"extract"}
+	if mode == 0 {
+		xargs = append(xargs, "-f", carPath)
+	}
+	if pathFlag != "" {
+		xargs = append(xargs, "--path", pathFlag)
+	}
+	xargs = append(xargs, "out")
+	switch mode {
+	case 0:
+		xr = runCar(c, sb.real, nil, xargs...)
+	case 1:
+		xr = runCarStdinFile(c, sb.real, carPath, xargs...)
+	default:
+		data, err := os.ReadFile(carPath)
+		if err != nil {
+			panic(err)
+		}
+		xr = runCar(c, sb.real, data, xargs...)
+	}
+	if synthetic {
+		// out must hold exactly the selected sub-directory
+		sub := Val(VL{VT("d"), VL{}})
+		for _, e := range vl(vnth(tree, 1)) {
+			if string(vb(vnth(e, 0))) == pathFlag {
+				sub = VL{VT("d"), VL{VL{vnth(e, 0), vnth(e, 1)}}}
+			}
+		}
+		return VL{extractStatus(xr), rootInfo, vbool(sameTree(sb.real+"/out", sub)), VN(1)}
+	}
+	if os.Getenv("VERIF_CLI_DEBUG") != "" {
+		e := xr.stderr
+		if len(e) > 600 {
+			e = e[len(e)-600:]
+		}
+		fmt.Fprintf(os.Stderr, "large: extract exit=%d stderr tail: %s\n", xr.exit, e)
+	}
+	dst := sb.real + "/out/t"
+	if nowrap {
+		dst = sb.real + "/out"
+	}
+	return VL{extractStatus(xr), rootInfo, vbool(sameTree(dst, tree)), vbool(sameTree(sb.real+"/src/t", tree))}
+}
+
+func init() {
+	registerReplay("createextractlarge", func(c *Ctx, in Val) Val { return runCreateExtractLargeCase(c, in) })
 }
